@@ -103,6 +103,15 @@ TEMPLATE_FILES = [
 
 
 TEMPLATE_FILES += [
+    # two DIFFERENT object schemas with one title, both referenced twice (the renamed class is met again by later passes)
+    ({"main.json": {"title": "Root", "type": "object",
+                    "properties": {"a": {"$ref": "#/definitions/a"}, "b": {"$ref": "#/definitions/b"}, "b2": {"$ref": "#/definitions/b"},
+                                   "l": {"type": "array", "items": {"$ref": "#/definitions/b"}}},
+                    "definitions": {"a": {"title": "Foo", "type": "object", "properties": {"x": {"type": "string"}}},
+                                    "b": {"title": "Foo", "type": "object", "properties": {"y": {"type": "integer"}}},
+                                    "c": {"title": "foo", "type": "object", "properties": {"y": {"type": "integer"}, "z": {"$ref": "#/definitions/b"}}}}}}, "main.json"),
+]
+TEMPLATE_FILES += [
     # recorded findings: class name shadowing an import, unusable attribute name, docstring quoting
     ({"main.json": {"title": "string", "type": "object", "properties": {"s": {"type": "string"}}}}, "main.json"),
     ({"main.json": {"title": "Sq", "type": "object", "properties": {"a\u00b2": {"type": "string"}}}}, "main.json"),
@@ -194,6 +203,18 @@ def run(tier, seed, replay=None):
                 stats["findings"][fid] = stats["findings"].get(fid, 0) + 1
             res.violation(dict(payload, kind="oracle", finding=fid, module=text[:3000],
                                what="the module declares classes %r but the document has the distinct object schemas %r" % (declared, expected)))
+            continue
+        # 2b. one class per DISTINCT object schema: classes that share a base name (Foo, Foo_1, Foo_2: the de-duplication suffixes)
+        #     are pairwise unequal - two of them being equal means one object schema was declared twice
+        import re as _re
+        dup = None
+        for i, a in enumerate(classes):
+            for b in classes[i + 1:]:
+                if _re.sub(r"_\d+$", "", a.__name__) == _re.sub(r"_\d+$", "", b.__name__) and ((a == b) is True or (b == a) is True):
+                    dup = (a.__name__, b.__name__)
+        if dup:
+            res.violation(dict(payload, kind="oracle", module=text[:3000],
+                               what="classes %s and %s are equal: one object schema was given two classes (de-duplication failed)" % dup))
             continue
         # 3. each generated class equals the model parsed directly, and validates identically
         bad = None
